@@ -598,6 +598,7 @@ def gen_hostile_all(seed, count, full=False):
         for total in (L - 1, L, L + 1, L + 2, L + 3, L + 4, L + 64):
             for ch in ((0, 7) if L > 3000 else (0, 1, 3)):
                 kw = dict(cprops=[[39, lim]]) if lim else {}
+                if L > 3000: kw["budget"] = 100000
                 steps = [dict(op="cfg", hosts=2, ka=0, tseed=11, **kw), dict(op="run", id=1), dict(op="recv", id=2, loop=1),
                          dict(op="hold"), dict(op="pub", id=10, qos=1, msg="m10")]
                 if ch: steps.append(dict(op="set", chunk=ch))
